@@ -9,6 +9,7 @@ import copy
 import json
 import math
 import os
+import copy
 import shutil
 
 import harness.common  # noqa: F401
